@@ -56,7 +56,9 @@ impl GenerationCache {
         events: &[EventInfo],
         config: &GenerateConfig,
     ) -> Result<Self, CacheError> {
-        let commands_hash = Self::hash_commands(commands)?;
+        // The dependency visualisation prints `file:line` of every command: when it is requested,
+        // the position of a command is an input of the output as well
+        let commands_hash = Self::hash_commands(commands, config.should_visualize_deps())?;
         let structs_hash = Self::hash_structs(structs)?;
         let config_hash = Self::hash_config(config)?;
         let events_hash = Self::hash_events(events)?;
@@ -171,12 +173,13 @@ impl GenerationCache {
     }
 
     /// Generate a deterministic hash of commands
-    fn hash_commands(commands: &[CommandInfo]) -> Result<String, CacheError> {
+    fn hash_commands(commands: &[CommandInfo], with_positions: bool) -> Result<String, CacheError> {
         // Create a serializable representation
         #[derive(Serialize)]
         struct CommandHashData<'a> {
             name: &'a str,
             file_path: &'a str,
+            line_number: Option<usize>,
             parameters: Vec<ParameterHashData<'a>>,
             return_type: &'a str,
             is_async: bool,
@@ -203,6 +206,7 @@ impl GenerationCache {
             .map(|cmd| CommandHashData {
                 name: &cmd.name,
                 file_path: &cmd.file_path,
+                line_number: with_positions.then_some(cmd.line_number),
                 parameters: cmd
                     .parameters
                     .iter()
